@@ -15,7 +15,8 @@ EXTENDS Naturals, Sequences, FiniteSets, TLC, Json
 CONSTANTS Which, Skeletons, MaxSites, MaxPlant, MaxItems
 VARIABLES plan
 
-PlantKinds == {"unknown-child", "unknown-leaf", "misplaced-known-child", "invalid-content", "invalid-content-not-unicode", "invalid-attribute", "starve-required-child"}
+PlantKinds == {"unknown-child", "unknown-leaf", "misplaced-known-child", "invalid-content", "invalid-content-not-unicode", "invalid-attribute", "starve-required-child",
+               "allowed-but-invalid-child-in-front"}      \* an empty sibling-named child at position 0: out of place AND invalid itself
   \* unknown-leaf: a childless child with a name that is not a known element - preferably one the parent's rule lists all the same
 Plantings == (1..MaxSites) \X PlantKinds
 UpTo2(S) == {{}} \cup {{a} : a \in S} \cup (IF MaxPlant >= 2 THEN {{a, b} : a \in S, b \in S} ELSE {})   \* never SUBSET S: 2^|S|
